@@ -10,6 +10,8 @@ else:
     terms = c10.dec_terms(rp['terms'])
     if rp.get('edit'):
         msg = c10.run_edit(rp['edit'])
+    elif rp.get('history'):
+        msg = c10.run_history(rp['history'])
     else:
         msg, _ = c10.oracle(rp['spec'], terms, tuple(rp['shape']))
     if not msg:
